@@ -167,3 +167,7 @@ def per_call_validators_ignored_on_objects(job, failure) -> bool:
     spec, _ = pools.get(job["pool"], job["pid"])
     ref = failure.get("extra", {}).get("ref_errors")
     return spec.k == "obj" and "validator" in str(ref) and len(ref) == 1
+
+
+def deep_nesting_recursion_error(job, failure) -> bool:
+    return job.get("variant") == "deep" and failure.get("extra", {}).get("exc") == "RecursionError"
